@@ -3,7 +3,10 @@ use std::collections::HashMap;
 verus! {
 // R5: Network reduced to the two fields `connect` mentions; `Layer` is opaque here.
 pub struct Layer {}
-pub struct Network { pub layers: Vec<Layer>, pub connect: HashMap<usize, usize> }   // connect: {target -> source}
+pub struct Network { pub layers: Vec<Layer>, pub connect: HashMap<usize, usize>, pub loopbacks: HashMap<usize, (usize, usize, bool)> }   // connect: {target -> source}
+// what the forward / backward units (network.forward, network.backward.walk) require of the tables: source <= target < #layers
+pub open spec fn connect_ok(n: Network) -> bool { forall|t: usize| #[trigger] n.connect@.contains_key(t) ==> n.connect@[t] <= t && t < n.layers@.len() }
+pub open spec fn loopbacks_ok(n: Network) -> bool { forall|t: usize| #[trigger] n.loopbacks@.contains_key(t) ==> n.loopbacks@[t].0 <= t }
 
 // The verified text is two regions of Network::connect: the index / duplicate guard and the final insert.  The element-count
 // comparison between them (two `match`es over the layer kinds + assert_eq!) is NOT part of the unit (listed in the drops).
@@ -18,6 +21,9 @@ fn connect_no_discard(&mut self, infrom: usize, into: usize)
         forall|t: usize| old(self).connect@.contains_key(t) ==> final(self).connect@.contains_key(t) && final(self).connect@[t] == old(self).connect@[t], //@ob earlier_kept
         // ... and the new one is recorded
         final(self).connect@.contains_key(into) && final(self).connect@[into] == infrom, //@ob recorded
+        // the table stays valid (source <= target < number of layers): the precondition of the forward and backward units
+        connect_ok(*old(self)) ==> connect_ok(*final(self)), //@ob table_stays_valid
+        final(self).layers@ == old(self).layers@,
 {
     broadcast use vstd::std_specs::hash::group_hash_axioms;
     //@body file=src/network.rs impl=Network fn=connect part="region:/if infrom > self\.layers\.len\(\) \|\| into >= self\.layers\.len\(\) \|\| infrom > into \{/../panic!\(.Skip connection already exists/" rewrites=R13 loops=0
@@ -46,6 +52,26 @@ fn connect_accepts_distinct(&mut self, infrom: usize, into: usize)
     //@body file=src/network.rs impl=Network fn=connect part="region:/if infrom > self\.layers\.len\(\) \|\| into >= self\.layers\.len\(\) \|\| infrom > into \{/../panic!\(.Skip connection already exists/" rewrites=R14 loops=0
     //@endbody
     //@body file=src/network.rs impl=Network fn=connect part="region:/self\.connect\.insert\(into, infrom\);/../self\.connect\.insert\(into, infrom\);/" loops=0
+    //@endbody
+}
+}
+//@endunit
+//@unit loopback.table prop=C17
+impl Network {
+fn loopback_table(&mut self, outof: usize, into: usize, iterations: usize, inskips: bool)
+    requires true,
+        //@requires-extra
+    ensures
+        // if the call returns at all: the connection is recorded as given, no earlier one is replaced, and into <= outof
+        final(self).loopbacks@.contains_key(outof) && final(self).loopbacks@[outof] == (into, iterations, inskips), //@ob recorded
+        forall|t: usize| old(self).loopbacks@.contains_key(t) ==> final(self).loopbacks@.contains_key(t) && final(self).loopbacks@[t] == old(self).loopbacks@[t], //@ob earlier_kept
+        into <= outof && into < old(self).layers@.len(), //@ob indices_validated
+        loopbacks_ok(*old(self)) ==> loopbacks_ok(*final(self)), //@ob table_stays_valid
+{
+    broadcast use vstd::std_specs::hash::group_hash_axioms;
+    //@body file=src/network.rs impl=Network fn=loopback part="region:/if outof > self\.layers\.len\(\) \|\| into >= self\.layers\.len\(\) \|\| outof < into \{/../panic!\(.Loop connection already exists/" rewrites=R13 loops=0
+    //@endbody
+    //@body file=src/network.rs impl=Network fn=loopback part="region:/self\.loopbacks\.insert\(outof, \(into, iterations, inskips\)\);/../self\.loopbacks\.insert\(/" loops=0
     //@endbody
 }
 }
